@@ -228,6 +228,8 @@ def run(tier, corrupt=False):
                 out = tmp / f"out_{tname}_{ci}"
                 if prepop:
                     import shutil
+                    if not (tmp / f"out_{tname}_0").exists():
+                        continue            # the first run already failed (reported above): nothing to pre-populate from
                     shutil.copytree(tmp / f"out_{tname}_0", out)
                     (out / "net").mkdir(exist_ok=True)
                     stale = sorted((out / "net").glob("*.py"))
